@@ -568,13 +568,6 @@ impl ContinuityStreamCache {
         self.try_read_last_seq_for_sidecar_path(continuity_id, &self.path_for(continuity_id))
     }
 
-    fn try_read_last_seq_messages_runs_v1(&self, continuity_id: &str) -> io::Result<Option<u64>> {
-        self.try_read_last_seq_for_sidecar_path(
-            continuity_id,
-            &self.messages_runs_path_for_v1(continuity_id),
-        )
-    }
-
     fn try_read_last_message_appended_messages_runs_v1(
         &self,
         continuity_id: &str,
